@@ -273,6 +273,55 @@ def run_first_residual_case(ctx, res, case):
     res.case(('first_residual', str(case)), True, case)
 
 
+def run_field_output_loop(ctx, res, seed):
+    """a loop member that also returns a FIELD QUANTITY (two fields named differently from the variable) that is not fed back: for
+    samples that do not converge EVERY output written by the loop is NaN - the fields too; returned samples satisfy the equations"""
+    from amisc.compression import SVD
+    rng = random.Random(seed)
+    grid = np.linspace(0, 1, 5)
+    g = rng.choice([0.4, 0.5, 0.6])
+
+    def model_a(inputs):
+        a = np.atleast_1d(inputs['b']) ** 2 + np.atleast_1d(inputs['x'])
+        return {'a': a, 'u': a[..., np.newaxis] * grid, 'v': a[..., np.newaxis] * (1 - grid)}
+
+    def model_b(inputs):
+        return {'b': g * np.atleast_1d(inputs['a'])}
+    x = Variable('x', domain=(0.0, 4.0)); a = Variable('a', domain=(0.0, 2.0)); b = Variable('b', domain=(0.0, 2.0))
+    p = Variable('p', compression=SVD(fields=['u', 'v'], coords=grid))
+    system = System(Component(model_a, [x, b], [a, p], name='A', vectorized=True),
+                    Component(model_b, [a], b, name='B', vectorized=True), name='floop')
+    # b = g (b^2 + x) has a real fixed point iff 1 - 4 g^2 x >= 0
+    xmax = 1.0 / (4 * g * g)
+    xs = np.array([0.1 * xmax, 0.3 * xmax, 2.5 * xmax, 0.5 * xmax, 3.0 * xmax])
+    bad = xs > xmax
+    tol = 1e-10
+    y = system.predict({'x': xs}, use_model='best', max_fpi_iter=rng.choice([40, 80]), fpi_tol=tol, normalized_inputs=False)
+    info = {'field_output_loop': seed, 'gain': g, 'x': xs.tolist()}
+    for var in ('a', 'b', 'u', 'v'):
+        if var not in y:
+            res.failures.append({'kind': 'loop-output-missing', 'input': {**info, 'output': var}})
+            continue
+        arr = np.asarray(y[var], dtype=float).reshape(len(xs), -1)
+        for i in np.nonzero(bad)[0]:
+            if not np.all(np.isnan(arr[i])):
+                res.failures.append({'kind': 'non-converged-sample-not-nan-in-a-loop-output', 'input': {**info, 'sample': int(i), 'output': var},
+                                     'observed': arr[i].tolist()})
+    for i in np.nonzero(~bad)[0]:
+        av, bv = float(np.asarray(y['a'])[i]), float(np.asarray(y['b'])[i])
+        if np.isnan(av) or np.isnan(bv):
+            res.hit('field-loop-sample-not-converged-within-limit')      # legal: NaN, never a stale value
+            continue
+        if not (abs(bv ** 2 + xs[i] - av) <= 100 * tol and abs(g * av - bv) <= 100 * tol):
+            res.failures.append({'kind': 'returned-sample-is-not-a-fixed-point-within-tolerance', 'input': {**info, 'sample': int(i)},
+                                 'observed': [av, bv]})
+        for fn_, ref in (('u', av * grid), ('v', av * (1 - grid))):
+            if np.max(np.abs(np.asarray(y[fn_], dtype=float)[i] - ref)) > 1e-7:
+                res.failures.append({'kind': 'field-output-inconsistent-with-returned-coupling-values', 'input': {**info, 'sample': int(i), 'field': fn_}})
+    res.hit('loop-member-with-field-quantity-output')
+    res.case(('field_output_loop', seed), True, info)
+
+
 def run_two_loops(ctx, res, seed):
     """two SEQUENTIAL feedback loops: (a0 <-> a1) feeds (b0 <-> b1) feeds a plain component d. Oracle only: exact 2x2 linear
     solves; a sample that fails in loop A is NaN in A, B and d; one that fails only in loop B keeps its loop-A values and is
@@ -353,7 +402,13 @@ def run(ctx: core.Ctx, only=None) -> core.Result:
         cases = cases + [{'two_loops': ctx.rng.randrange(10 ** 6)} for _ in range(ctx.scale(6, 60))]
     if only is None:
         cases = cases + [{'first_residual': True, 'slope': sl, 'offset': of, 'gain': 0.5} for sl, of in ((2.0, -3.0), (0.5, 1.0))]
+    if only is None:
+        cases = cases + [{'field_output_loop': ctx.rng.randrange(10 ** 6)} for _ in range(ctx.scale(2, 8))]
     for case in cases:
+        if 'field_output_loop' in case:
+            with core.guarded(res, 'scenario-raised', case):
+                run_field_output_loop(ctx, res, case['field_output_loop'])
+            continue
         if 'first_residual' in case:
             with core.guarded(res, 'scenario-raised', case):
                 run_first_residual_case(ctx, res, case)
